@@ -249,12 +249,16 @@ impl CompilerSession {
         &mut self, path: impl AsRef<Path>, text: String,
     ) -> Result<(), SourceLoadError> {
         let canonical = Self::path_identity(path.as_ref())?;
-        let input = self.files.get(&canonical).map(|entry| *entry).unwrap_or_else(|| {
-            let disk_text = std::fs::read_to_string(&canonical).ok();
-            let input = SourceInput::new(self, canonical.clone(), disk_text, None, None);
-            self.files.insert(canonical, input);
-            input
-        });
+        // One atomic get-or-insert: a snapshot that discovers the same path at the
+        // same moment must end up with this very input, not with a twin that no
+        // later edit reaches.
+        let input = match self.files.entry(canonical.clone()) {
+            | Entry::Occupied(entry) => *entry.get(),
+            | Entry::Vacant(entry) => {
+                let disk_text = std::fs::read_to_string(&canonical).ok();
+                *entry.insert(SourceInput::new(self, canonical, disk_text, None, None))
+            }
+        };
         if input.overlay(self).as_ref() != Some(&text) {
             input.set_overlay(self).to(Some(text));
         }
